@@ -97,6 +97,64 @@ class VGen(G.ProgGen):
         return self.lines, self.exp
 
 
+class OGen(VGen):
+    """out-of-order explicit timestamps (version index enabled): time-travel point reads only,
+    sets and soft deletes only (no barriers), so that 'greatest timestamp <= T' is unambiguous"""
+
+    def step(self):
+        rng = self.rng
+        r = rng.random()
+        if r < 0.40:
+            i = self.next_tx
+            self.next_tx += 1
+            self.emit("e2 begin %d rw" % i)
+            for _ in range(rng.randint(1, 3)):
+                k = self.key()
+                # distinct timestamps per key: the property does not say which of two versions
+                # with the same timestamp a time-travel read must prefer
+                used = self.__dict__.setdefault("used_ts", {}).setdefault(k, set())
+                free = [t for t in range(1, 31) if t not in used]
+                if not free:
+                    continue
+                ts = rng.choice(free)
+                used.add(ts)
+                if rng.random() < 0.8:
+                    self.emit("e2 setat %d %s %s %d" % (i, k, self.val(), ts))
+                else:
+                    self.emit("e2 sdelat %d %s %d" % (i, k, ts))
+            self.emit("e2 commit %d" % i)
+        elif r < 0.75:
+            cand = self.open_tx(readable=True)
+            if not cand or rng.random() < 0.3:
+                i = self.next_tx
+                self.next_tx += 1
+                self.emit("e2 begin %d ro" % i)
+                self.tx[i] = dict(mode="ro", closed=False, curs=set())
+                cand = [i]
+            self.emit("e2 getat %d %s %d" % (rng.choice(cand), self.key(), rng.randint(0, 32)))
+        elif r < 0.80:
+            cand = self.open_tx()
+            if cand:
+                i = rng.choice(cand)
+                self.emit("e2 drop %d" % i)
+                self.tx.pop(i, None)
+        elif r < 0.97:
+            op = rng.choices(["flush", "rotate", "compact"], [6, 2, 6])[0]
+            self.emit("e2 compact %d" % rng.randint(0, max(0, self.lc - 1)) if op == "compact" else "e2 " + op)
+        else:
+            self.emit("e2 reopen")
+            self.tx, self.cur = {}, {}
+
+    def finish(self):
+        i = self.next_tx
+        self.next_tx += 1
+        self.emit("e2 begin %d ro" % i)
+        for k in self.keys:
+            for t in (0, 5, 10, 15, 20, 25, 31):
+                self.emit("e2 getat %d %s %d" % (i, k, t))
+        return self.lines, self.exp
+
+
 def nontrivial(lines, exp):
     ops = [l.split()[1] for l in lines]
     return "compact" in ops and any(o in ops for o in ("del", "repl")) and ops.count("commit") >= 3
@@ -110,6 +168,17 @@ def explore(ctx):
     G.ProgGen = VGen
     try:
         r = G.explore_profiles(ctx, "C10", pf, nontrivial, classify=classify, n_quick=200, n_thorough=3000)
+        G.ProgGen = OGen
+        pf2 = [dict(name="out-of-order-index", opts=[OPTS[3], "lc=3,ver=1,vlog=1,vth=0,idx=1,bs=64"], keys=KEYS[:3], max_tx=2, length=(30, 80))]
+        r2 = G.explore_profiles(dict(ctx, seed=ctx["seed"] + 77), "C10", pf2, lambda l, e: any(x.split()[1] == "flush" for x in l),
+                                classify=classify, n_quick=120, n_thorough=1500)
+        r["violations"] += r2["violations"]
+        r["known"] += r2["known"]
+        r["disagreements"] += r2["disagreements"]
+        for k in ("evaluations", "distinct_nontrivial", "programs", "disagreements_checked", "failing_programs"):
+            r["coverage"][k] = r["coverage"].get(k, 0) + r2["coverage"].get(k, 0)
+        r["coverage"]["profiles"].update(r2["coverage"]["profiles"])
+        r["coverage"]["samples"] += r2["coverage"]["samples"]
     finally:
         G.ProgGen = orig
     r = CK.merge(r, CK.explore(ctx, "C10", versioning=True, n_quick=1500, n_thorough=20000))
